@@ -208,7 +208,7 @@ Qed.
 
 Lemma step_inv ct s t o : Inv s t -> Inv (fst (rstep ct s o)) (fst (refstep ct t o)).
 Proof.
-  intros I. destruct o as [c|c|c n| |T]; cbn [rstep refstep fst]; try exact I.
+  intros I. destruct o as [c|c|c n| |T|T k]; cbn [rstep refstep fst]; try exact I.
   - exact (inv_concrete s t c I).
   - exact (inv_concrete_n n s t c I).
   - exact (inv_clear s t I).
@@ -220,18 +220,48 @@ Proof.
   apply IH. now apply step_inv.
 Qed.
 
-(* every observation of every history: query results are permutations of the reference answer without repetition,
+(* every observation of every history: a query result is a permutation of the reference answer without repetition; an
+   abandoned query (k results taken) delivered k distinct members of the reference answer (all of it if it has fewer);
    the initialisation counts are equal *)
-Definition obs_ok (a b : list nat * nat) : Prop := Permutation (fst a) (fst b) /\ NoDup (fst a) /\ snd a = snd b.
+Definition obs_ok (o : rop) (a b : list nat * nat) : Prop :=
+  match o with
+  | OQueryTake _ k => incl (fst a) (fst b) /\ NoDup (fst a) /\ length (fst a) = Nat.min k (length (fst b)) /\ snd a = snd b
+  | _ => Permutation (fst a) (fst b) /\ NoDup (fst a) /\ snd a = snd b
+  end.
 
-Theorem run_refines ct ops : forall s t, Inv s t -> Forall2 obs_ok (rrun ct s ops) (refrun ct t ops).
+Inductive all_obs_ok : list rop -> list (list nat * nat) -> list (list nat * nat) -> Prop :=
+| obs_nil : all_obs_ok [] [] []
+| obs_cons o a b ops la lb : obs_ok o a b -> all_obs_ok ops la lb -> all_obs_ok (o :: ops) (a :: la) (b :: lb).
+
+Lemma nodup_firstn {A} k (l : list A) : NoDup l -> NoDup (firstn k l).
+Proof.
+  revert l. induction k as [|k IH]; intros l N; cbn [firstn]; [constructor|]. destruct l as [|a l]; [constructor|].
+  inversion N as [|? ? Ha Nl]; subst. constructor; [|now apply IH]. intros H. apply Ha. clear -H. revert l H.
+  induction k as [|k IH]; intros l H; cbn [firstn] in H; [destruct H|]. destruct l as [|b l]; [destruct H|].
+  destruct H as [->|H]; [now left | right; now apply IH].
+Qed.
+
+Lemma incl_firstn {A} k (l : list A) : incl (firstn k l) l.
+Proof.
+  revert l. induction k as [|k IH]; intros l x H; cbn [firstn] in H; [destruct H|]. destruct l as [|a l]; [destruct H|].
+  destruct H as [->|H]; [now left | right; now apply IH].
+Qed.
+
+Theorem run_refines ct ops : forall s t, Inv s t -> all_obs_ok ops (rrun ct s ops) (refrun ct t ops).
 Proof.
   induction ops as [|o ops IH]; intros s t I; cbn [rrun refrun]; [constructor|].
   pose proof (step_inv ct s t o I) as I'.
   destruct (rstep ct s o) as [s' out] eqn:Es. destruct (refstep ct t o) as [t' out'] eqn:Et. cbn [fst] in I'.
-  constructor; [|now apply IH]. unfold obs_ok. cbn [fst snd]. split; [|split]; [| |exact (I_inits _ _ I')].
-  - destruct o as [c|c|c n| |T]; cbn [rstep refstep] in Es, Et; injection Es as <- <-; injection Et as <- <-; try constructor.
-    apply (query_refines ct s t T I).
-  - destruct o as [c|c|c n| |T]; cbn [rstep refstep] in Es; injection Es as <- <-; try constructor.
-    apply (query_refines ct s t T I).
+  constructor; [|now apply IH]. pose proof (I_inits _ _ I') as Ei.
+  destruct o as [c|c|c n| |T|T k]; cbn [rstep refstep] in Es, Et; injection Es as <- <-; injection Et as <- <-; unfold obs_ok; cbn [fst snd].
+  - split; [constructor | split; [constructor | exact Ei]].
+  - split; [constructor | split; [constructor | exact Ei]].
+  - split; [constructor | split; [constructor | exact Ei]].
+  - split; [constructor | split; [constructor | exact Ei]].
+  - destruct (query_refines ct s t T I) as [P N]. split; [exact P | split; [exact N | exact Ei]].
+  - destruct (query_refines ct s t T I) as [P N]. split; [|split; [|split]].
+    + intros x Hx. eapply Permutation_in; [exact P|]. eapply incl_firstn; exact Hx.
+    + now apply nodup_firstn.
+    + rewrite firstn_length. now rewrite (Permutation_length P).
+    + exact Ei.
 Qed.
